@@ -195,6 +195,10 @@ pub fn verify_stark_proof_with_challenges_circuit<
             min_degree_bits_to_support,
         );
     } else {
+        // Without support for multiple degrees, the FRI parameters are those of exactly one trace length,
+        // so the claimed `degree_bits` must be that length.
+        let expected_degree_bits = builder.constant(F::from_canonical_usize(degree_bits));
+        builder.connect(proof.degree_bits, expected_degree_bits);
         builder.verify_fri_proof::<C>(
             &fri_instance,
             &proof.openings.to_fri_openings(zero),
